@@ -53,6 +53,24 @@ def corpus(tier):
                   "int k(char *s, char *t) { char buf[3]; buf[3] = 0; buf[4] = 1; return s == t; }\n",
     }
     items.append(("multi", multi, None, ["scopes.cpp", "ptrs.c"]))
+    # several entities at ONE source position (macro expansions): any order derived from positions alone ties here
+    ties = {
+        "ties.c": "#define TWO_PTRS(arr, first, last) int *first = &arr[0]; int *last = &arr[1]\n"
+                  "#define TWO_UNUSED(a, b) int a = 1; int b = 2\n"
+                  "#define TWO_DIV(x) (x / 0) + (x % 0)\n"
+                  "#define TWO_OOB(arr) arr[5] = 0; arr[6] = 0\n"
+                  "int t1(void) { int v[2] = {1, 2}; TWO_PTRS(v, lo, hi); return *lo + *hi; }\n"
+                  "void t2(void) { TWO_UNUSED(p, q); }\n"
+                  "int t3(int y) { return TWO_DIV(y); }\n"
+                  "void t4(void) { int w[2]; TWO_OOB(w); }\n"
+                  "void t5(int *a, int *b, int *c) { TWO_UNUSED(m, n); if (a) {} *a = *b + *c; }\n",
+        "ties.cpp": "#define TWO_MEMBERS(a, b) int a; int b\n"
+                    "#define TWO_REFS(v, r1, r2) int &r1 = v; int &r2 = v\n"
+                    "struct T { TWO_MEMBERS(x, y); T() {} };\n"
+                    "int u1(int z) { TWO_REFS(z, ra, rb); return ra + rb; }\n"
+                    "void u2(char *s, char *t) { TWO_MEMBERS(k, l); k = 0; l = 1; if (s == t) {} }\n",
+    }
+    items.append(("ties", ties, None, ["ties.c", "ties.cpp"]))
     return items
 
 
